@@ -61,3 +61,26 @@ Example C08_example :
   enforce_ex_str doc_deny_override on [Match EAllow; NoMatch; Match EDeny; Match EDeny] false
   = Ok (false, Some 2).
 Proof. vm_compute. reflexivity. Qed.
+
+(* ---------------------------------------------------------------------------------------------------------------
+   Of the SOURCE (see Props/C01.v and EnforceSrcTie.v): the explanation the regenerated kernel of enforce_ex returns is
+   the model's - the index of the first deciding rule, or none when the decision is reached by default. *)
+From PyCasbin Require EnfLang EnforceSrcTie.
+From PyCasbinGen Require EnforceGen.
+
+Theorem C08_source_kernel_is_model : forall im fi tb en ar he rules er, (he = false \/ rules <> []) ->
+  EnfLang.erun im fi tb (EnforceSrcTie.mkenv en ar he rules er) EnforceSrcTie.EFUEL EnforceGen.enforce_kernel_locals
+    EnforceGen.enforce_kernel_gen =
+  enforce_ex im fi tb {| enabled := en; arity_ok := ar |} (map EnforceSrcTie.out_of rules) (EnforceSrcTie.truthy er).
+Proof. exact EnforceSrcTie.kernel_is_model. Qed.
+Print Assumptions C08_source_kernel_is_model.
+
+Theorem C08_source_explain_is_first_deciding : forall s e, In (s, e) documented ->
+  forall he rules er, rules <> [] ->
+  EnforceSrcTie.src_enforce_ex s true true he rules er =
+  match error_before_decision e (map EnforceSrcTie.out_of rules) with
+  | Some c => Err c
+  | None => Ok (spec_decision e (map EnforceSrcTie.out_of rules), spec_explain e (map EnforceSrcTie.out_of rules))
+  end.
+Proof. exact EnforceSrcTie.src_decision_is_spec. Qed.
+Print Assumptions C08_source_explain_is_first_deciding.
